@@ -20766,8 +20766,13 @@ int cg_delete_node(const char *node_name)
             CGNS_DELETE_SHIFT(ndescr, descr, cgi_free_descr)
         else if (strcmp(node_label,"AdditionalFamilyName_t")==0)
             CGNS_DELETE_SHIFT(nfamname, famname, cgi_free_famname)
-        else if (strcmp(node_label,"ZoneGridConnectivity_t")==0)
+        else if (strcmp(node_label,"ZoneGridConnectivity_t")==0) {
             CGNS_DELETE_SHIFT(nzconn, zconn, cgi_free_zconn)
+            /* the current ZoneGridConnectivity_t node (cg_zconn_set) is
+               kept as an index: n is the index the deleted node had */
+            if (parent->active_zconn > n+1) parent->active_zconn--;
+            else if (parent->active_zconn == n+1) parent->active_zconn = 0;
+        }
         else if (strcmp(node_label,"ZoneSubRegion_t")==0)
             CGNS_DELETE_SHIFT(nsubreg, subreg, cgi_free_subreg)
         else if (strcmp(node_label,"ZoneIterativeData_t")==0)
